@@ -582,6 +582,13 @@ def rule_k(R, ctx, rid="C16.k"):
 
 
 def check(ctx, R):
+    from . import shared as _sh
+    R.run("C16.m", lambda R, c: _sh.api_delegations(
+        R, c, "C16.m", _sh.IDSET_DELEGATIONS,
+        "R-PROV the thin layer of the id sets: every IdSet operation (contains, get, is_empty, len, merge / diff / intersect and "
+        "their in-place forms) is the operation of the same name on the inner maps of BOTH operands in their order; IdSet::insert "
+        "files clock .. clock + len under id.client; IdMapInner::{merge, diff, intersect} are a clone followed by the in-place form "
+        "with the same other operand; contains looks the id's clock up in the ranges of the id's client"), ctx)
     R.run("C16.k", rule_k, ctx)
     R.run("C16.a", rule_a, ctx)
     R.run("C16.b", rule_b, ctx)
